@@ -52,14 +52,14 @@ RelNote(n, b) ==
       [] OTHER -> n
 NotesJ(f, eb, d, alignW, stream) ==
     IF stream
-    THEN LET b == FSub(f, d.start, d.len)
+    THEN LET b == TLCEval(FSub(f, d.start, d.len))
              ns == Notes(eb.little, alignW, b)
          IN [n |-> Len(ns), items |-> [i \in 1..Len(ns) |-> RelNote(ns[i], b)]]
     ELSE LET ns == NotesAt(f, eb, d.start, d.len, alignW)
          IN [n |-> Len(ns), items |-> ns]
 
 RelsJ(f, eb, ty, d) ==
-    LET items == IterAll(ty, eb.class, eb.little, FSub(f, d.start, d.len))
+    LET items == IterAll(ty, eb.class, eb.little, TLCEval(FSub(f, d.start, d.len)))
     IN [n |-> Len(items), items |-> [i \in 1..Len(items) |-> Pub(items[i])]]
 
 \* one symbol-version query, as recorded inside a symbol_version_table result
